@@ -75,7 +75,9 @@ Definition violations_pipe (k : pipecase) : list N :=
          then [50] else [51])
    else if p_flat c then (if c_busydel r then [20] else [21])
    else if c_reord r then [10]
-   else if c_busydel r then [11] else [12]) ++
+   else if fst (c_lossy r) then [11]
+   else if snd (c_lossy r) then [14]
+   else if c_busydel r then [15] else [12]) ++
   (if existsb (N.eqb 3) (o_srclog k) then [if p_flat c then 30 else 31] else []) ++
   (if existsb (N.eqb 1) (o_srclog k) then [32] else []) ++
   (if existsb (N.eqb 2) (o_srclog k) then [33] else []) ++
